@@ -472,7 +472,7 @@ func C19(c *vlib.Ctx) {
 		blocks = append(blocks, splitTopLevel(t)...)
 	}
 	c.Set("corpus_blocks", len(blocks))
-	n := c.N(6000, 400000)
+	n := c.N(6000, 600000)
 	for i := 0; i < n; i++ {
 		r := vlib.Derive(c.Seed, "C19", i)
 		var t, origin string
